@@ -376,6 +376,10 @@ def skeletons():
         q('exists', 0, ('and', j(1, ('AX', v(2))), ('EF', j(3, P)))), ('EX', q('bind', 0, ('AG', ('EF', v(1))))), q('bind', 0, ('and', P, Q)), ('imp', P, q('forall', 0, ('iff', v(1), Q))),
         q('bind', 0, q('exists', 1, q('forall', 2, j(3, ('and', v(4), ('or', v(5), v(6))))))), j(0, q('bind', 1, v(2))), q('bind', 0, ('and', j(1, v(2)), q('bind', 3, v(4)))),
         q('bind', 0, v(1), 'd'), q('exists', 0, q('forall', 1, ('and', v(2), ('wild', 'w')), 'e'), 'd'), ('and', q('bind', 0, q('bind', 1, v(2))), q('bind', 3, q('bind', 4, v(5)))),
+        # the same closed shape at two different nesting depths (shallow then deep, deep then shallow, with a jump)
+        ('and', q('bind', 0, ('AX', v(1))), q('bind', 2, ('and', ('AX', v(3)), q('bind', 4, ('AX', v(5)))))),
+        ('and', q('bind', 0, ('and', ('AX', v(1)), q('bind', 2, ('AX', v(3))))), q('bind', 4, ('AX', v(5)))),
+        ('or', q('exists', 0, j(1, P)), q('bind', 2, ('or', v(3), q('exists', 4, j(5, P))))),
     ]
 
 def fill(sk, names):
@@ -439,10 +443,14 @@ def sc_c07(ctx, p):
     sk = sks[ctx.choose(len(sks), 'skeleton')]
     names = Names(ctx)
     ns = {i: tuple(names.fresh(p.get('len', 1))) for i in range(nslots(sk))}
-    ns['P'] = tuple(names.fresh(2)); ns['Q'] = tuple(map(ord, 'v1'))
-    phi = fill(sk, ns)
     from .mirsym import biomodel
-    M = biomodel.Model(2, 0); biomodel.install(I, M)
+    kk = p.get('k', 0)
+    M = biomodel.Model(2, kk); biomodel.install(I, M)
+    # the proposition slot: 2 symbolic characters, or (contexts with auxiliary variable sets) a symbolic name as long as
+    # the names of the auxiliary BDD variables "<var>_extra_<j>", which are not network variables
+    plen = 2 if not kk or ctx.choose(2, 'proposition length') == 0 else len(M.names[0]) + len('_extra_0')
+    ns['P'] = tuple(names.fresh(plen)); ns['Q'] = tuple(map(ord, 'v1'))
+    phi = fill(sk, ns)
     tree = TR.build(I, phi)
     r = I.run(I.fn('validate_props_and_rename_vars'), [tree, Ptr(Cell(biomodel.CtxObj(M)))])
     ok, exp, depth = oracle_rename(ctx, phi, M.names)
